@@ -149,6 +149,12 @@ type Client struct {
 	// of the held stanzas follow the order on the wire, which is the order in which the server counts them.
 	// It is taken before the lock of the queue.
 	sendMu sync.Mutex
+
+	// sendGate is closed (sendClosed true) from the moment a connection attempt starts until its negotiation
+	// has succeeded: meanwhile the transport holds a connection that is not (yet) protected by TLS and only
+	// NewSession may write on it. Senders hold the read side for the duration of their write.
+	sendGate   sync.RWMutex
+	sendClosed bool
 }
 
 /*
@@ -251,6 +257,9 @@ func (c *Client) Connect() error {
 func (c *Client) connect() error {
 	var state SMState
 	var err error
+	// From here on the transport holds a new connection in clear text: until TLS and the rest of the
+	// negotiation are through, nothing the application sends may be written on it.
+	c.setSendClosed(true)
 	// This is the TCP connection
 	streamId, err := c.transport.Connect()
 	if err != nil {
@@ -282,6 +291,8 @@ func (c *Client) connect() error {
 		return err
 	}
 	c.Session.StreamId = streamId
+	// The connection is secure, or the application allowed an insecure one (NewSession checked it).
+	c.setSendClosed(false)
 	c.updateState(StateSessionEstablished)
 
 	return err
@@ -444,7 +455,23 @@ func (c *Client) writeHeld(packet []byte, held *stanza.UnAckQueue) error {
 	return err
 }
 
+// ErrNoSession is returned by Send, SendRaw and SendIQ while a connection attempt is in progress or has failed.
+var ErrNoSession = errors.New("no established session: a connection attempt is in progress or has failed")
+
+func (c *Client) setSendClosed(closed bool) {
+	c.sendGate.Lock()
+	c.sendClosed = closed
+	c.sendGate.Unlock()
+}
+
 func (c *Client) sendWithWriter(writer io.Writer, packet []byte) error {
+	// While the client is (re)connecting the transport already points at the new connection, on which TLS is
+	// not established yet (or was refused): a stanza written now would travel in clear text.
+	c.sendGate.RLock()
+	defer c.sendGate.RUnlock()
+	if c.sendClosed {
+		return ErrNoSession
+	}
 	var err error
 	_, err = writer.Write(packet)
 	return err
